@@ -356,6 +356,20 @@ def ring_spec(draw, modes=None, chords=True, thru=True, max_n=5):
         comps.append(t)
         links.append([names[draw(st.integers(0, n - 1))], "o", draw(st.sampled_from([[], [["lin"]], [["scale", 2.0]]])), "Tail", "i0"])
         extra += 1
+    # feeder: a model outside the ring feeds a ring member through a further input, declared before or after the ring
+    # input, directly or through a push-based / pass-through adapter (adds no cycle; the member then has inputs whose
+    # chains differ in kind: buffered and delayed)
+    if chords and draw(st.integers(0, 3)) == 0:
+        f = {"kind": "model", "name": "Feed", "start": draw(st.sampled_from(sorted(set(starts.values())))), "steps": [draw(st.integers(1, 5))], "ins": [], "outs": ["o"]}
+        comps.append(f)
+        tgt = names[draw(st.integers(0, n - 1))]
+        nm = f"i{len(ins[tgt])}"
+        if draw(st.booleans()):
+            ins[tgt].insert(0, nm)
+        else:
+            ins[tgt].append(nm)
+        links.append(["Feed", "o", draw(st.sampled_from([[], [["lin"]], [["next"]], [["prev"]], [["scale", 2.0]], [["lin"], ["cb"]]])), tgt, nm])
+        extra += 1
     for c in comps:
         if c["name"] in ins:
             c["ins"] = ins[c["name"]]
